@@ -151,3 +151,41 @@ def switched(V, dtype):
             gmax = T.sabs(x[t]) if gmax is None else T.smax2(gmax, T.sabs(x[t]))
         out.prove('global-absolute-maximum-included', T.sor(*[T.seq(T.sabs(x[a]), gmax) for a in sp]))
         out.unchanged('x', x)
+
+
+# ------------------------------------------------------------------------------------ unbounded (tol = 0)
+def member_sym(x, i, keep_adj):
+    is_zero = T.seq(x[i], 0)
+    prev = x[T.ssub(i, 1)]
+    first_of_run = True if keep_adj else T.sne(prev, 0)
+    return T.sor(T.seq(i, 0), T.sand(T.sge(i, 1), T.sor(T.sand(is_zero, first_of_run), T.slt(T.smul(x[i], prev), 0))))
+
+
+@unit('C12', 'get_zero_crossings_array_indices/unbounded', functions=[PK + 'get_zero_crossings_array_indices'],
+      cases=[dict(keep_adj=True), dict(keep_adj=False)], modes=('unbounded',), budget_ms=20000)
+def zero_crossings_unbounded(V, keep_adj):
+    st = {}
+
+    def setup():
+        n = V.size('n', 1)
+        x = V.array('x', n)
+        st.update(n=n, x=x)
+        return dict(values=x, keep_adj_zeros=keep_adj)
+    for out in V.run(PK + 'get_zero_crossings_array_indices', setup):
+        if not out.no_raise():
+            continue
+        out.side_conditions()
+        n, x = st['n'], st['x']
+        z = out.result
+        m = z.shape[0]
+        out.prove('non-empty', T.sge(m, 1))
+        out.prove('first-is-0', T.seq(z[0], 0))
+        for k in V.idx(0, m, 'k'):
+            out.prove('every-entry-in-range', T.sand(T.sle(0, z[k]), T.slt(z[k], n)))
+            out.prove('every-entry-is-a-crossing', member_sym(x, z[k], keep_adj))
+        for k in V.idx(1, m, 'k1'):
+            out.prove('ascending-without-duplicates', T.slt(z[k - 1], z[k]))
+        # completeness (every crossing is reported) needs the inverse permutation of the sort and both where-position
+        # functions as instantiation hints; z3 does not find them within budget, so completeness is covered by the bounded
+        # membership clauses of `get_zero_crossings_array_indices` above and is NOT claimed unbounded.
+        out.unchanged('x', x)
